@@ -134,3 +134,52 @@ def use_lemma(name, *terms):
 
 def cover(label):
     return True
+
+
+# ---- closed forms for "pull n items" / "push a list" (no loop in the spec) -------------------------
+def take_top(stack, n):
+    """remove the top n items; returns them top-first; IndexError if fewer than n"""
+    return [stack.get() for _ in range(n)]
+
+
+def put_all(stack, items):
+    """push the items in order (Stack.put semantics: TypeError / ScriptExecutionError)"""
+    for it in items:
+        stack.put(it)
+
+
+def int_sum(items):
+    """sum of the two's-complement values of a list of byte strings (ValueError on an empty item)"""
+    from tapescript.functions import bytes_to_int
+    t = 0
+    for it in items:
+        t += bytes_to_int(it)
+    return t
+
+
+def int_sub(items):
+    """first minus the rest"""
+    from tapescript.functions import bytes_to_int
+    t = bytes_to_int(items[0])
+    for it in items[1:]:
+        t -= bytes_to_int(it)
+    return t
+
+
+def int_prod(items):
+    from tapescript.functions import bytes_to_int
+    t = bytes_to_int(items[0])
+    for it in items[1:]:
+        t *= bytes_to_int(it)
+    return t
+
+
+def all_nonempty(items):
+    return all(len(x) > 0 for x in items)
+
+
+def fresh_bytes(tag, n):
+    """nondeterministic bytes of length n (native: only used in monitors, where the real value is
+    substituted by the harness)"""
+    import secrets
+    return secrets.token_bytes(n)
